@@ -1,0 +1,56 @@
+//go:build verif
+
+package req
+
+import "net"
+
+// VerifPoolSnap is a lock-consistent copy of the HTTP/1.1 pool bookkeeping of a Transport
+// (verification hook for property C09; compiled only with -tags verif).
+type VerifPoolSnap struct {
+	Idle            map[string][]net.Conn // per connectMethodKey: underlying conns of idleConn[key], most recently used last
+	IdleWait        map[string]int        // len(idleConnWait[key])
+	LRULen          int                   // idleLRU.len()
+	CloseIdle       bool
+	PerHost         map[string]int // connsPerHost[key]
+	DialWait        map[string]int // len(connsPerHostWait[key])
+	DialsInProgress int
+	MaxIdleConns    int
+	MaxIdlePerHost  int
+	MaxConnsPerHost int
+	NoKeepAlives    bool
+}
+
+// VerifPoolSnapshot takes idleMu and then connsPerHostMu (the order tryPutIdleConn ->
+// closeLocked -> decConnsPerHost uses) and copies the pool state while holding both.
+func VerifPoolSnapshot(t *Transport) VerifPoolSnap {
+	s := VerifPoolSnap{
+		Idle: map[string][]net.Conn{}, IdleWait: map[string]int{},
+		PerHost: map[string]int{}, DialWait: map[string]int{},
+		MaxIdleConns: t.MaxIdleConns, MaxIdlePerHost: t.MaxIdleConnsPerHost,
+		MaxConnsPerHost: t.MaxConnsPerHost, NoKeepAlives: t.DisableKeepAlives,
+	}
+	t.idleMu.Lock()
+	defer t.idleMu.Unlock()
+	t.connsPerHostMu.Lock()
+	defer t.connsPerHostMu.Unlock()
+	for k, l := range t.idleConn {
+		cs := make([]net.Conn, len(l))
+		for i, pc := range l {
+			cs[i] = pc.conn
+		}
+		s.Idle[k.String()] = cs
+	}
+	for k, q := range t.idleConnWait {
+		s.IdleWait[k.String()] = q.len()
+	}
+	s.LRULen = t.idleLRU.len()
+	s.CloseIdle = t.closeIdle
+	for k, n := range t.connsPerHost {
+		s.PerHost[k.String()] = n
+	}
+	for k, q := range t.connsPerHostWait {
+		s.DialWait[k.String()] = q.len()
+	}
+	s.DialsInProgress = t.dialsInProgress.len()
+	return s
+}
